@@ -1,6 +1,7 @@
 import Femio.Props.C20
 import Femio.Props.C20Pipeline
 import Femio.Props.C20Admit
+import Femio.Props.C20Round5
 open Femio.C20
 #print axioms C20_check_polyhedron_spec
 #print axioms C20_checker_sound
@@ -39,3 +40,9 @@ open Femio.C20
 #print axioms C20_fan_normal_rotate_k
 #print axioms C20_upstream_normal_counterexample
 #print axioms C20_upstream_admits_knife_edge
+#print axioms C20_sum_truncation_counterexample
+#print axioms C20_mean_wrap_eq
+#print axioms C20_mean_narrow_accumulation_counterexample
+#print axioms C20_merge_via_table_eq
+#print axioms C20_table_valid_after_merge
+#print axioms C20_stale_table_counterexample
